@@ -123,6 +123,8 @@ where
             .take()
             .unwrap_or_else(|| Box::new(StdRng::from_os_rng()));
         let start_time = Instant::now();
+        #[cfg(feature = "verif")]
+        let start_time = crate::verif::VirtualInstant::now();
         loop {
             if start_time.elapsed().as_secs_f64() > self.timeout {
                 break;
@@ -290,6 +292,8 @@ where
         let mut goal_reached = None;
 
         let start_time = Instant::now();
+        #[cfg(feature = "verif")]
+        let start_time = crate::verif::VirtualInstant::now();
         while let Some(current_idx) = queue.pop_front() {
             if start_time.elapsed() > timeout {
                 return Err(PlanningError::Timeout);
